@@ -55,6 +55,7 @@ type Config struct {
 	OwnPkg      func(*ssa.Package) bool
 	Verbose     bool
 	FixedInputs map[string]any // concrete replay inside the engine (engine self-validation)
+	IsKnown     func(v *Violation) bool // known findings do not count towards MaxViol
 }
 
 type InputVal struct {
@@ -572,7 +573,10 @@ func (e *explorer) violation(kind, msg, verdict string, model map[string]string,
 	if !sh.seenViol[key] {
 		sh.seenViol[key] = true
 		sh.res.Violations = append(sh.res.Violations, v)
-		if sh.cfg.MaxViol > 0 && len(sh.res.Violations) >= sh.cfg.MaxViol {
+		if sh.cfg.IsKnown == nil || !sh.cfg.IsKnown(&v) {
+			sh.nviol++
+		}
+		if sh.cfg.MaxViol > 0 && int(sh.nviol) >= sh.cfg.MaxViol {
 			sh.stop = true
 			sh.cond.Broadcast()
 		}
